@@ -18,12 +18,13 @@ Proof.
     rewrite E, IH by discriminate. cbn [join]. rewrite <- !app_assoc. reflexivity.
 Qed.
 
-(* the specified rendering of a document is the renderings of its blocks, separated by one empty line:
+(* the specified rendering of a sequence of blocks (under a given numbering of the footnotes) is the renderings of
+   its blocks, separated by one empty line:
    putting two documents one after the other concatenates their renderings, whatever their blocks are *)
-Theorem spec_render_compositional : forall o sp d1 d2, d1 <> [] -> d2 <> [] ->
-  render o sp (d1 ++ d2) = render o sp d1 ++ [10; 10] ++ render o sp d2.
+Theorem spec_render_compositional : forall o sp env d1 d2, d1 <> [] -> d2 <> [] ->
+  render o sp env (d1 ++ d2) = render o sp env d1 ++ [10; 10] ++ render o sp env d2.
 Proof.
-  intros o sp d1 d2 H1 H2. unfold render. rewrite map_app.
+  intros o sp env d1 d2 H1 H2. unfold render. rewrite map_app.
   apply join_app; intros E; apply map_eq_nil in E; contradiction.
 Qed.
 Print Assumptions spec_render_compositional.
